@@ -278,24 +278,19 @@ class SmallVector {
    **/
   template <typename... Args>
   reference emplace_back(Args&&... args) {
-    T* ptr;
-    if (isInline()) {
-      size_type sz = rawSize();
-      if (sz < N) {
-        ptr = inlineData();
-      } else {
-        growToHeap(N * 2);
-        ptr = storage_.heap_.ptr;
-      }
-    } else {
-      size_type sz = rawSize();
-      if (sz == storage_.heap_.capacity) {
-        growToHeap(storage_.heap_.capacity * 2);
-      }
-      ptr = storage_.heap_.ptr;
-    }
     size_type idx = rawSize();
-    new (ptr + idx) T(std::forward<Args>(args)...);
+    T* ptr;
+    if (idx < capacity()) {
+      ptr = data();
+      new (ptr + idx) T(std::forward<Args>(args)...);
+    } else {
+      // args may refer to an element of this vector (e.g. v.push_back(v[0])), so construct the new
+      // element in the new block before the old elements are moved out and their storage released.
+      size_type newCap = capacity() * 2;
+      ptr = static_cast<T*>(::operator new(newCap * sizeof(T)));
+      new (ptr + idx) T(std::forward<Args>(args)...);
+      moveToHeap(ptr, newCap);
+    }
     // Increment preserves heap bit naturally
     ++size_;
     assert(rawSize() > 0 && "Size overflow into heap bit");
@@ -342,6 +337,13 @@ class SmallVector {
    * @param value The value to copy into new elements.
    **/
   void resize(size_type count, const T& value) {
+    if (count > capacity()) {
+      // value may refer to an element of this vector; copy it before growing invalidates it.
+      T saved(value);
+      ensureCapacity(count);
+      resize(count, saved);
+      return;
+    }
     size_type sz = rawSize();
     if (count > sz) {
       ensureCapacity(count);
@@ -423,7 +425,11 @@ class SmallVector {
   // Grow to heap storage with the specified capacity.
   // Moves existing elements, frees old heap if applicable, sets heap bit.
   void growToHeap(size_type newCap) {
-    T* newData = static_cast<T*>(::operator new(newCap * sizeof(T)));
+    moveToHeap(static_cast<T*>(::operator new(newCap * sizeof(T))), newCap);
+  }
+
+  // Move the elements into the (raw) block newData of capacity newCap and make it the storage.
+  void moveToHeap(T* newData, size_type newCap) {
     T* oldData = data();
     size_type sz = rawSize();
 
